@@ -204,6 +204,24 @@ mod sbs_rows {
     fn stub_superimpose(_a: &[(SyntectStyle, &str)], _b: &[(Style, &str)], _t: bool, _n: SyntectStyle) -> Vec<(Style, String)> {
         Vec::new()
     }
+    // `State::clone` (derived) restricted to the states that occur in these harnesses - exactly
+    // what the derived impl does for them; any other variant is a harness error. The derived impl
+    // drags the String / Vec cloning code of the header, grep, blame and merge variants through
+    // symbolic execution although it is never executed here.
+    fn stub_state_clone(s: &State) -> State {
+        match s {
+            State::HunkMinus(DiffType::Unified, None) => State::HunkMinus(DiffType::Unified, None),
+            State::HunkPlus(DiffType::Unified, None) => State::HunkPlus(DiffType::Unified, None),
+            State::HunkZero(DiffType::Unified, None) => State::HunkZero(DiffType::Unified, None),
+            State::HunkMinusWrapped => State::HunkMinusWrapped,
+            State::HunkPlusWrapped => State::HunkPlusWrapped,
+            State::HunkZeroWrapped => State::HunkZeroWrapped,
+            _ => {
+                assert!(false, "harness: unexpected state");
+                State::Unknown
+            }
+        }
+    }
     #[allow(clippy::too_many_arguments)]
     fn stub_pad(_l: &mut String, _e: bool, _i: Option<usize>, _d: &[LineSections<'_, Style>], _h: Option<&[bool]>, _s: &State, _p: PanelSide, _b: BgShouldFill, _c: &Config) {}
 
@@ -317,6 +335,7 @@ mod sbs_rows {
             #[kani::stub(crate::features::line_numbers::format_and_paint_line_numbers, stub_format_and_paint)]
             #[kani::stub(crate::paint::superimpose_style_sections, stub_superimpose)]
             #[kani::stub(pad_panel_line_to_width, stub_pad)]
+            #[kani::stub(<State as std::clone::Clone>::clone, stub_state_clone)]
             fn $name() {
                 row::<$l, $r>();
             }
@@ -330,4 +349,147 @@ mod sbs_rows {
     row_harness!(c05_sbs_row_first_cont, 1, 2);
     row_harness!(c05_sbs_row_cont_absent, 2, 0);
     row_harness!(c05_sbs_row_absent_cont, 0, 2);
+
+    // ---- unchanged lines in side-by-side view: one row of `paint_zero_lines_side_by_side`
+    // (through `wrap_zero_block`, which passes a short line through unchanged)
+    #[kani::proof]
+    #[kani::unwind(4)]
+    #[kani::stub(crate::features::line_numbers::format_and_paint_line_numbers, stub_format_and_paint)]
+    #[kani::stub(crate::paint::superimpose_style_sections, stub_superimpose)]
+    #[kani::stub(pad_panel_line_to_width, stub_pad)]
+    #[kani::stub(<State as std::clone::Clone>::clone, stub_state_clone)]
+    fn c05_sbs_row_zero() {
+        let mut cfg_mem = MaybeUninit::<Config>::uninit();
+        let config = cfg(&mut cfg_mem);
+        unsafe {
+            let p = config as *const Config as *mut Config;
+            addr_of_mut!((*p).side_by_side_data).write(SideBySideData::new(Panel { width: 40 }, Panel { width: 40 }));
+            addr_of_mut!((*p).zero_style).write(Style::new());
+        }
+        let (l, r): (usize, usize) = (kani::any(), kani::any());
+        kani::assume(l < usize::MAX - 4 && r < usize::MAX - 4);
+        let mut data = LineNumbersData::default();
+        data.line_number = MinusPlus::new(l, r);
+        let mut out = String::new();
+        let mut d = Some(&mut data);
+        paint_zero_lines_side_by_side("\n", vec![Vec::new()], vec![Vec::new()], &mut out, config, &mut d, None, BgShouldFill::With(BgFillMethod::Spaces));
+        assert!(data.line_number[Left] == l + 1 && data.line_number[Right] == r + 1, "an unchanged line advances both counters by one");
+        let (calls, k0, n0, k1, n1) = unsafe {
+            let p = config as *const Config;
+            (
+                addr_of!((*p).max_line_length).read(),
+                addr_of!((*p).available_terminal_width).read(),
+                addr_of!((*p).diff_stat_align_width).read(),
+                addr_of!((*p).line_buffer_size).read(),
+                addr_of!((*p).max_syntax_length).read(),
+            )
+        };
+        assert!(calls == 2, "one number field per panel");
+        assert!(k0 == 1 && n0 == l, "left panel of an unchanged line shows its old-file number");
+        assert!(k1 == 3 && n1 == r, "right panel of an unchanged line shows its new-file number");
+        kani::cover!(l == 9 && r == 99, "a particular counter state");
+        kani::cover!(true, "end of harness reached");
+        std::mem::forget(data);
+        std::mem::forget(out);
+    }
+
+    // ---- unified view: one line of `Painter::paint_lines`
+    // monitor for the two-column gutter: kind 5, both numbers (usize::MAX encodes "blank")
+    fn stub_format_and_paint_unified<'a>(
+        _d: &'a LineNumbersData,
+        panel: Option<PanelSide>,
+        _styles: MinusPlus<Style>,
+        nums: MinusPlus<Option<usize>>,
+        c: &'a Config,
+    ) -> Vec<ansi_term::ANSIGenericString<'a, str>> {
+        unsafe {
+            let p = c as *const Config as *mut Config;
+            let n = addr_of!((*p).max_line_length).read();
+            if n == 0 {
+                addr_of_mut!((*p).line_buffer_size).write(if panel.is_none() { 5 } else { 9 });
+                addr_of_mut!((*p).diff_stat_align_width).write(match nums[Minus] {
+                    Some(n) => n,
+                    None => usize::MAX,
+                });
+                addr_of_mut!((*p).max_syntax_length).write(match nums[Plus] {
+                    Some(n) => n,
+                    None => usize::MAX,
+                });
+            }
+            addr_of_mut!((*p).max_line_length).write(n.wrapping_add(1));
+        }
+        Vec::new()
+    }
+    fn stub_fill<'p>(_d: &[(Style, &str)], _h: Option<bool>, _s: &State, _b: BgShouldFill, _c: &Config) -> (Option<BgFillMethod>, Style)
+    where
+        'p: 'p, // the original is an associated function of `impl<'p> Painter<'p>`
+    {
+        (None, Style::new())
+    }
+
+    // KIND: 0 removed, 1 unchanged, 2 added
+    fn unified_line<const KIND: u8>() {
+        let mut cfg_mem = MaybeUninit::<Config>::uninit();
+        let config = cfg(&mut cfg_mem);
+        unsafe {
+            let p = config as *const Config as *mut Config;
+            addr_of_mut!((*p).side_by_side).write(false);
+            addr_of_mut!((*p).line_numbers).write(true);
+            addr_of_mut!((*p).zero_style).write(Style::new());
+        }
+        let state = match KIND {
+            0 => State::HunkMinus(DiffType::Unified, None),
+            1 => State::HunkZero(DiffType::Unified, None),
+            _ => State::HunkPlus(DiffType::Unified, None),
+        };
+        let lines: Vec<(String, State)> = vec![(String::new(), state)];
+        let syn: Vec<LineSections<SyntectStyle>> = vec![Vec::new()];
+        let dif: Vec<LineSections<Style>> = vec![Vec::new()];
+        let (l, r): (usize, usize) = (kani::any(), kani::any());
+        kani::assume(l < usize::MAX - 4 && r < usize::MAX - 4);
+        let mut data = LineNumbersData::default();
+        data.line_number = MinusPlus::new(l, r);
+        let mut out = String::new();
+        let mut d = Some(&mut data);
+        Painter::paint_lines(&lines, &syn, &dif, &[false], &mut out, config, &mut d, None, BgShouldFill::With(BgFillMethod::Spaces));
+        let (calls, kind, nm, np) = unsafe {
+            let p = config as *const Config;
+            (
+                addr_of!((*p).max_line_length).read(),
+                addr_of!((*p).line_buffer_size).read(),
+                addr_of!((*p).diff_stat_align_width).read(),
+                addr_of!((*p).max_syntax_length).read(),
+            )
+        };
+        assert!(calls == 1 && kind == 5, "one two-column number gutter per line in unified view");
+        let (want_m, want_p, l2, r2) = match KIND {
+            0 => (l, usize::MAX, l + 1, r),
+            1 => (l, r, l + 1, r + 1),
+            _ => (usize::MAX, r, l, r + 1),
+        };
+        assert!(nm == want_m && np == want_p, "unified view: removed lines show the old number, added lines the new one, unchanged lines both");
+        assert!(data.line_number[Left] == l2 && data.line_number[Right] == r2, "unified view: counters advance for the files the line belongs to");
+        kani::cover!(l == 3 && r == 5, "a particular counter state");
+        kani::cover!(true, "end of harness reached");
+        std::mem::forget(data);
+        std::mem::forget(out);
+        std::mem::forget(lines);
+    }
+
+    macro_rules! unified_harness {
+        ($name:ident, $k:expr) => {
+            #[kani::proof]
+            #[kani::unwind(4)]
+            #[kani::stub(crate::features::line_numbers::format_and_paint_line_numbers, stub_format_and_paint_unified)]
+            #[kani::stub(crate::paint::superimpose_style_sections, stub_superimpose)]
+            #[kani::stub(crate::paint::Painter::get_should_right_fill_background_color_and_fill_style, stub_fill)]
+            #[kani::stub(<State as std::clone::Clone>::clone, stub_state_clone)]
+            fn $name() {
+                unified_line::<$k>();
+            }
+        };
+    }
+    unified_harness!(c05_unified_line_minus, 0);
+    unified_harness!(c05_unified_line_zero, 1);
+    unified_harness!(c05_unified_line_plus, 2);
 }
